@@ -5,8 +5,9 @@ Driver requests for the optimiser's IR-level dead store elimination (`Hpbf/OptDs
 
 `<anal>` is one token: `A<at_most_once><at_least_once><has_shift>(r1,r2,…){<sub analyses>}` with bits 0/1.
 -/
-import Hpbf.Driver6
+import Hpbf.Driver7
 import Hpbf.OptDse
+import Hpbf.Proofs.C01DseCheck
 
 namespace Hpbf
 namespace Driver8
@@ -45,8 +46,41 @@ def decodeAnal (s : String) : Option DAnal :=
   | some (a, []) => some a
   | _ => none
 
+/-- Run the IR machine and test the hypothesis `OnceOk` of the bytecode-emission theorems on this run:
+whenever a loop marked `once` is about to be entered, its condition cell is non-zero. Returns `false` at the
+first violation. -/
+def onceChk {w : Nat} : Nat → Ir.Cfg w → Bool
+  | 0, _ => true
+  | fuel + 1, c =>
+    let okHere := match c.cur with
+      | .loop cond _ _ true :: _ => c.st.rd cond != 0#w
+      | _ => true
+    if !okHere then false
+    else match Ir.step false c with
+      | .next c' => onceChk fuel c'
+      | _ => true
+
+/-- `C01Dse.chkReads` without the requirement that the run ends within `N` steps (a bounded test for
+non-terminating runs: exposure of a cell outside `reads` is looked for in the next `N` steps only). -/
+def chkReadsBounded {w : Nat} (anal : DAnal) (N : Nat) (c : Ir.Cfg w) : Bool :=
+  match c.cur, c.conts with
+  | [], .loopEnd cond shift _ _ :: _ =>
+    match C01Dse.analOf anal c.conts, Ir.step false c with
+    | some A0, .next c1 =>
+      A0.hasShift || (c.st.mov shift).rd cond == 0#w ||
+        ((C01Dse.trail false N c1).flatMap C01Dse.stepReads).all (fun a =>
+          A0.reads.contains (a - c1.st.ptr) || C01Dse.unexposedN false c.conts.length a N c1)
+    | _, _ => true
+  | _, _ => true
+
 def handle (line : String) : String :=
   match line.splitOn " " with
+  | "oncechk" :: ws :: fs :: sin :: sout :: rest =>
+    (do
+      let w ← ws.toNat?; let fuel ← fs.toNat?; let env ← Driver.decodeEnv sin sout
+      let b ← decodeBlock w (" ".intercalate rest)
+      some (if onceChk fuel { cur := b.insts, conts := [], budget := 0, st := State.init env }
+            then "onceok" else "once-violated")).getD "bad-request"
   | "optdse" :: ws :: an :: rest =>
     (do
       let w ← ws.toNat?
@@ -55,7 +89,22 @@ def handle (line : String) : String :=
       some (match OptDse.eliminate b a with
         | some b' => Driver.encodeBlock b'
         | none => "panic")).getD "bad-request"
-  | _ => Driver6.handle line
+  | "dsefacts" :: ws :: ns :: sin :: sout :: an :: rest =>
+    -- the hypotheses of `C01Dse.eliminate_preserves` (NoDupTargets, AnalSound) tested on the run of this program:
+    -- `facts-ok` = every fact holds at every configuration of the first N steps (and, if the run ends within N
+    -- steps, `C01Dse.checkSound = true`, which PROVES AnalSound for this program and environment)
+    (do
+      let w ← ws.toNat?; let n ← ns.toNat?; let env ← Driver.decodeEnv sin sout
+      let a ← decodeAnal an
+      let b ← decodeBlock w (" ".intercalate rest)
+      let c0 := C01Dse.initCfg b 0 env
+      some (if !C01Dse.noDupL b.insts then "dup-targets"
+            else if !C01Dse.shiftOkL a b.insts then "shift-fact-violated"
+            else if C01Dse.endsWithin false n c0 then
+              (if C01Dse.checkSound false 0 b a env n then "facts-ok" else "facts-violated")
+            else if (C01Dse.trail false n c0).all (fun c => C01Dse.chkAtLeast a c && C01Dse.chkAtMost a c &&
+                      chkReadsBounded a n c) then "facts-ok" else "facts-violated")).getD "bad-request"
+  | _ => Driver7.handle line
 
 end Driver8
 end Hpbf
